@@ -98,6 +98,42 @@ Extensions used by C15 / C02 (second translation-validation pass; all purely add
   values of the parameters are the variables' values at the end of the slice; nothing can call a slice).
 * spec["ext_dotted_consts"] = {"np.iinfo(np.int32).max": 2147483647}: the expression, compared by its unparsed text, is
   that integer literal (checked against the running numpy by the harness relation).
+
+Extensions used by C19 / C17 / C10 (third translation-validation pass; all purely additive, off unless asked for):
+* slice markers of a top-level slice: start {"if_and_names": [a, b]} (the statement `if a and b:`), {"if_name_is_not_none": v}
+  (`if v is not None:`), {"if_body_calls": "np.random.seed"} (the `if` statement, whatever its test, whose body contains the
+  statement `np.random.seed(...)`), {"attr_assign": "rng"} (`self.rng = ...`, self = the first parameter); stop {"through_call": f} (up
+  to and including the first following top-level statement `f(...)`, f a plain name), {"through_if_name": v} (... the
+  first following `if v:` statement), {"through_return": True} (to the end of the function, whose last statement must be
+  its only return), {"single": True} (the start statement alone), {"before_assign": v} (up to, not
+  including, the first following top-level `v = ...`).
+* slice key "click_options": {param: "file_r" | "multi_str"}: the function must carry exactly one decorator
+  `@click.option(...)` declaring that parameter (click's naming rule: the name without dashes, else the first name with
+  the longest dash prefix, `-` -> `_`, lower case), with `type=click.File("r")` and neither multiple / nargs / is_flag /
+  count / default / callback ("file_r": the value is None or ONE open text file), resp. `type=str, multiple=True` and none
+  of nargs / is_flag / count / default / callback ("multi_str": a tuple of str, empty when the option is not given).
+* spec["with_names"] = True: `with <name> as f: body` = `f = <name>` followed by body, for a context manager whose
+  __enter__ returns the object itself (an open file; closing it has no effect the model can see).  Accepted only if f is
+  bound nowhere else and read exactly once in the whole function, inside that body, and <name> is not used in the body
+  (so one method call - `f.read()` - sees the object, and the by-value reading of the external method is sound).
+* spec["dotted_raises"] = {"click.UsageError": "UsageError"}: `raise click.UsageError(...)` raises that kind of the shared
+  enum; the module must `import click` (plain import, the name not rebound).
+* `set(e)` / `tuple(e)` with one argument (`ESetOf` / `ETupleOf`; the names set / tuple bound nowhere in the module):
+  only in a top-level slice that contains no ==, !=, in, not in, .index(), for loop or call of a translated function -
+  a set built from a sequence is a value that may reach any variable, and MiniPy's == does not compare sets.
+* spec["state_calls"] = {"np.random.seed": "$gen"}: the STATEMENT `np.random.seed(a, ...)` (positional arguments only; the
+  root name bound nowhere in the function) has an effect on a piece of global state that the model threads through the
+  slice as the list parameter named there: `$gen = <"$s.np.random.seed">($gen, a, ...)`, the Section variable
+  `exts_np_random_seed : list val -> res val` on (old state, argument values) - any function of them.
+* slice key "self_stores": {"rng": "self_rng"}: in the slice, the store `self.rng = e` (self = the first parameter of the
+  method) is the assignment of the slice variable `self_rng`; the class chain is checked as for "self_attrs" (no
+  property / __setattr__ / class attribute of that name).
+* slice key "obj_attrs": {"snpgts": {"samples": "snpgts_samples"}}: a READ of `snpgts.samples`, snpgts a parameter of the
+  function that the slice uses in no other way, is a read of the slice parameter named there (by value).  That the
+  attribute is a plain attribute of the objects passed is an assumption of the harness relation (it passes such objects).
+* slice key "late_externals": [(file, function)]: like spec["externals"], but the Section variable `ext_<f>` is declared
+  in a section opened just before this function (`Section GenLate`), so that the text and the arity of the functions
+  translated before it do not change; the function is callable from this and the following functions only.
 """
 import ast
 import os
@@ -153,6 +189,11 @@ class Ctx:
         self.dotted_consts = dict(spec.get("ext_dotted_consts", {}))
         self.counter_ok = False         # set per function: the module imports collections.Counter under that name
         self.set_ok = False             # ... and does not bind the name `set`
+        self.tuple_ok = False           # ... nor the name `tuple`
+        self.with_names = bool(spec.get("with_names"))
+        self.dotted_raises = dict(spec.get("dotted_raises", {}))
+        self.state_calls = dict(spec.get("state_calls", {}))
+        self.plain_imports = set()      # set per function: names bound by a plain `import name` only
 
 
 def parse_state_class(node, cid, attrs):
@@ -435,6 +476,10 @@ class FunTranslator:
                     return f"(EToInt {self.expr(e.args[0])})"
                 if f.id == "abs" and len(e.args) == 1:
                     return f"(EAbs {self.expr(e.args[0])})"
+                if f.id in ("set", "tuple") and len(e.args) == 1 and f.id not in self.params \
+                        and f.id not in self.assigned and (self.ctx.set_ok if f.id == "set" else self.ctx.tuple_ok):
+                    self.check_collection_ctor(e)
+                    return f"({'ESetOf' if f.id == 'set' else 'ETupleOf'} {self.expr(e.args[0])})"
                 if f.id in self.classes:
                     ci = self.classes[f.id]
                     if ci.state:
@@ -477,6 +522,20 @@ class FunTranslator:
                 return f"(EIndexOf {self.expr(f.value)} {self.expr(e.args[0])})"
             _bad(e, "call")
         _bad(e, f"expression {type(e).__name__}")
+
+    def check_collection_ctor(self, e):
+        """set(e) / tuple(e): only where the value built can never reach ==, `in`, .index(), a for loop or another
+        translated function (MiniPy's == does not compare sets)"""
+        if not self.slice_vars:
+            _bad(e, "set(e) / tuple(e) outside a top-level slice")
+        for n in ast.walk(self.node):
+            if isinstance(n, ast.Compare) and any(isinstance(o, (ast.Eq, ast.NotEq, ast.In, ast.NotIn)) for o in n.ops):
+                _bad(n, "==, !=, in, not in in a slice that builds a set / tuple from a sequence")
+            if isinstance(n, ast.For):
+                _bad(n, "for loop in a slice that builds a set / tuple from a sequence")
+            if isinstance(n, ast.Call) and ((isinstance(n.func, ast.Attribute) and n.func.attr == "index")
+                                            or self.call_target(n) is not None):
+                _bad(n, ".index() / call of a translated function in a slice that builds a set / tuple from a sequence")
 
     # ---- statements
     def lval(self, t, what):
@@ -780,6 +839,14 @@ class FunTranslator:
                 return "SSkip"
             if isinstance(v, ast.Call) and self.dotted(v.func) in self.ctx.exit_calls:
                 return f"(SRaise {ERR_KINDS['SystemExit']})"
+            if isinstance(v, ast.Call) and self.dotted(v.func) in self.ctx.state_calls:
+                d = self.dotted(v.func)
+                root, stream = d.split(".")[0], self.ctx.state_calls[d]
+                if v.keywords or root in self.params or root in self.assigned:
+                    _bad(s, f"{d}(): keyword arguments / {root} is rebound")
+                self.use_oracle(stream)
+                args = [f"(EVar {cstr(stream)})"] + [self.expr(x) for x in v.args]
+                return f"(SAssign {cstr(stream)} (ECall {cstr('$s.' + d)} {clist(args)}))"
             if isinstance(v, ast.Call) and isinstance(v.func, ast.Name) and v.func.id in self.ctx.outputs:
                 o = self.ctx.outputs[v.func.id]
                 if v.keywords or any(not isinstance(a, ast.Name) for i, a in enumerate(v.args) if i not in o["args"]):
@@ -886,6 +953,20 @@ class FunTranslator:
             self.for_stack.pop()
             self.iterating.pop()
             return f"(SFor {cstr(s.target.id)} {it}\n {body})"
+        if isinstance(s, ast.With) and self.ctx.with_names and len(s.items) == 1 \
+                and isinstance(s.items[0].context_expr, ast.Name) and isinstance(s.items[0].optional_vars, ast.Name):
+            # with <name> as f: body  =  f = <name>; body   (an open file: __enter__ returns the object itself)
+            src, f = s.items[0].context_expr.id, s.items[0].optional_vars.id
+            self.name(s.items[0].context_expr)
+            binds = [n for n in ast.walk(self.node) if isinstance(n, ast.Name) and n.id == f
+                     and not isinstance(n.ctx, ast.Load)]
+            loads = [n for n in ast.walk(self.node) if isinstance(n, ast.Name) and n.id == f and isinstance(n.ctx, ast.Load)]
+            inside = [n for st in s.body for n in ast.walk(st) if isinstance(n, ast.Name)]
+            if f in self.params or f == src or len(binds) != 1 or len(loads) != 1 \
+                    or not any(n is loads[0] for n in inside) or any(n.id == src for n in inside):
+                _bad(s, f"with {src} as {f}: {f} must be bound only here and read exactly once, inside the body, "
+                        f"and {src} may not be used in the body")
+            return f"(SSeq (SAssign {cstr(f)} (EVar {cstr(src)}))\n {self.block(s.body)})"
         if isinstance(s, ast.With):
             ok = (self.ctx.with_open and len(s.items) == 1 and isinstance(s.items[0].optional_vars, ast.Name)
                   and isinstance(s.items[0].context_expr, ast.Call) and isinstance(s.items[0].context_expr.func, ast.Name)
@@ -914,6 +995,12 @@ class FunTranslator:
             exc = s.exc
             if isinstance(exc, ast.Call):
                 exc = exc.func
+            if isinstance(exc, ast.Attribute) and self.dotted(exc) in self.ctx.dotted_raises and s.cause is None:
+                d = self.dotted(exc)
+                root = d.split(".")[0]
+                if root in self.params or root in self.assigned or root not in self.ctx.plain_imports:
+                    _bad(s, f"raise {d}: {root} is not (only) the module imported by `import {root}`")
+                return f"(SRaise {ERR_KINDS[self.ctx.dotted_raises[d]]})"
             if not isinstance(exc, ast.Name) or exc.id not in ERR_KINDS:
                 _bad(s, "raise of an unknown exception class")
             return f"(SRaise {ERR_KINDS[exc.id]})"
@@ -929,7 +1016,7 @@ class FunTranslator:
                 t = n.target.id
             elif isinstance(n, ast.For) and isinstance(n.target, ast.Name):
                 t = n.target.id
-            elif isinstance(n, ast.With) and self.ctx.with_open:
+            elif isinstance(n, ast.With) and (self.ctx.with_open or self.ctx.with_names):
                 for it in n.items:
                     if isinstance(it.optional_vars, ast.Name):
                         t = it.optional_vars.id
@@ -1151,6 +1238,22 @@ def slice_top(fn, sl):
             return isinstance(st, ast.If) and isinstance(st.test, ast.Name) and st.test.id == a["if_name"]
         if a.get("with_open"):
             return isinstance(st, ast.With)
+        if "if_and_names" in a:
+            return (isinstance(st, ast.If) and isinstance(st.test, ast.BoolOp) and isinstance(st.test.op, ast.And)
+                    and [v.id if isinstance(v, ast.Name) else None for v in st.test.values] == list(a["if_and_names"]))
+        if "if_name_is_not_none" in a:
+            t = st.test if isinstance(st, ast.If) else None
+            return (t is not None and isinstance(t, ast.Compare) and len(t.ops) == 1 and isinstance(t.ops[0], ast.IsNot)
+                    and isinstance(t.left, ast.Name) and t.left.id == a["if_name_is_not_none"]
+                    and isinstance(t.comparators[0], ast.Constant) and t.comparators[0].value is None)
+        if "if_body_calls" in a:
+            return isinstance(st, ast.If) and any(
+                isinstance(x, ast.Expr) and isinstance(x.value, ast.Call)
+                and FunTranslator.dotted(x.value.func) == a["if_body_calls"] for x in st.body)
+        if "attr_assign" in a:
+            return (isinstance(st, ast.Assign) and len(st.targets) == 1 and isinstance(st.targets[0], ast.Attribute)
+                    and isinstance(st.targets[0].value, ast.Name) and bool(fn.args.args)
+                    and st.targets[0].value.id == fn.args.args[0].arg and st.targets[0].attr == a["attr_assign"])
         return False
 
     starts = [i for i, st in enumerate(body) if is_start(st)]
@@ -1175,6 +1278,31 @@ def slice_top(fn, sl):
         if not isinstance(body[-1], ast.Return) or i0 >= len(body) - 1:
             _bad(fn, f"{fn.name}: the function does not end with a return statement")
         end = len(body) - 1
+    elif b.get("through_return"):
+        if not isinstance(body[-1], ast.Return) or any(isinstance(n, ast.Return) for st in body[:-1] for n in ast.walk(st)):
+            _bad(fn, f"{fn.name}: the function does not end with its only return statement")
+        end = len(body)
+    elif "through_call" in b:
+        js = [j for j in range(i0 + 1, len(body)) if isinstance(body[j], ast.Expr) and isinstance(body[j].value, ast.Call)
+              and isinstance(body[j].value.func, ast.Name) and body[j].value.func.id == b["through_call"]]
+        if len(js) != 1:
+            _bad(fn, f"{fn.name}: the statement `{b['through_call']}(...)` is not found exactly once after the start of "
+                     f"{sl['name']}")
+        end = js[0] + 1
+    elif "through_if_name" in b:
+        js = [j for j in range(i0 + 1, len(body)) if isinstance(body[j], ast.If) and isinstance(body[j].test, ast.Name)
+              and body[j].test.id == b["through_if_name"]]
+        if len(js) != 1:
+            _bad(fn, f"{fn.name}: `if {b['through_if_name']}:` is not found exactly once after the start of {sl['name']}")
+        end = js[0] + 1
+    elif b.get("single"):
+        end = i0 + 1
+    elif "before_assign" in b:
+        js = [j for j in range(i0 + 1, len(body)) if isinstance(body[j], ast.Assign) and len(body[j].targets) == 1
+              and isinstance(body[j].targets[0], ast.Name) and body[j].targets[0].id == b["before_assign"]]
+        if not js:
+            _bad(fn, f"{fn.name}: `{b['before_assign']} = ...` is not found after the start of {sl['name']}")
+        end = js[0]
     else:
         _bad(fn, f"slice {sl['name']}: no stop marker")
     stmts = [copy.deepcopy(st) for st in body[i0:end]]
@@ -1197,6 +1325,47 @@ def slice_top(fn, sl):
         stmts = list(w.body) + stmts[1:]
     stmts = desugar_listcomps(stmts, {n.id for n in ast.walk(fn) if isinstance(n, ast.Name)}
                               | {x.arg for x in fn.args.args})
+    if sl.get("click_options"):
+        check_click_options(fn, sl["click_options"])
+    stores = dict(sl.get("self_stores", {}))
+    if stores:
+        selfname = fn.args.args[0].arg if fn.args.args else None
+        if selfname is None or selfname in sl["params"]:
+            _bad(fn, f"{fn.name}: no self parameter")
+
+        class W(ast.NodeTransformer):
+            def visit_Attribute(self, n):
+                if isinstance(n.value, ast.Name) and n.value.id == selfname and n.attr in stores \
+                        and isinstance(n.ctx, ast.Store):
+                    return ast.copy_location(ast.Name(id=stores[n.attr], ctx=ast.Store()), n)
+                return self.generic_visit(n)
+
+        used = {n.id for n in ast.walk(fn) if isinstance(n, ast.Name)} | {x.arg for x in fn.args.args}
+        for v in stores.values():
+            if v in used:
+                _bad(fn, f"{fn.name}: the name {v} (standing for a stored attribute of {selfname}) occurs in the function")
+        stmts = [W().visit(st) for st in stmts]
+    for obj, amap in dict(sl.get("obj_attrs", {})).items():
+        if obj not in [x.arg for x in fn.args.args] or obj in sl["params"]:
+            _bad(fn, f"{fn.name}: {obj} is not a parameter of the function (or is also a parameter of the slice)")
+        if any(isinstance(n, ast.Name) and n.id == obj and not isinstance(n.ctx, ast.Load) for n in ast.walk(fn)):
+            _bad(fn, f"{fn.name}: the parameter {obj} is rebound")
+        used = {n.id for n in ast.walk(fn) if isinstance(n, ast.Name)} | {x.arg for x in fn.args.args}
+        for v in amap.values():
+            if v in used:
+                _bad(fn, f"{fn.name}: the name {v} (standing for an attribute of {obj}) occurs in the function")
+
+        class O(ast.NodeTransformer):
+            def visit_Attribute(self, n):
+                if isinstance(n.value, ast.Name) and n.value.id == obj and n.attr in amap and isinstance(n.ctx, ast.Load):
+                    return ast.copy_location(ast.Name(id=amap[n.attr], ctx=ast.Load()), n)
+                return self.generic_visit(n)
+
+        stmts = [O().visit(st) for st in stmts]
+        for st in stmts:
+            for n in ast.walk(st):
+                if isinstance(n, ast.Name) and n.id == obj:
+                    _bad(n, f"{fn.name}: {obj} is used other than by reading {sorted(amap)}")
     attrs = dict(sl.get("self_attrs", {}))
     if attrs:
         selfname = fn.args.args[0].arg if fn.args.args else None
@@ -1225,6 +1394,50 @@ def slice_top(fn, sl):
     node = ast.FunctionDef(name=sl["name"], args=args, body=stmts, decorator_list=[], lineno=fn.lineno)
     ast.fix_missing_locations(node)
     return node, writes
+
+
+def check_click_options(fn, want):
+    """the click declarations behind the parameters of a command function (see the module docstring, "click_options")"""
+    found = {}
+    for d in fn.decorator_list:
+        if not (isinstance(d, ast.Call) and FunTranslator.dotted(d.func) == "click.option"):
+            continue
+        names = [x.value for x in d.args if isinstance(x, ast.Constant) and isinstance(x.value, str)]
+        if len(names) != len(d.args) or not names:
+            _bad(d, f"{fn.name}: click.option with parameter declarations that are not string literals")
+        plain = [n for n in names if not n.startswith("-")]
+        if len(plain) > 1:
+            _bad(d, f"{fn.name}: click.option with two parameter names")
+        if plain:
+            pname = plain[0]
+        else:
+            dashes = lambda n: len(n) - len(n.lstrip("-"))
+            best = max(dashes(n) for n in names)
+            pname = [n for n in names if dashes(n) == best][0].lstrip("-").replace("-", "_").lower()
+        found.setdefault(pname, []).append(d)
+    params = [x.arg for x in fn.args.args]
+    for pname, kind in want.items():
+        ds = found.get(pname, [])
+        if len(ds) != 1 or pname not in params:
+            _bad(fn, f"{fn.name}: the parameter {pname} is not declared by exactly one click.option")
+        kw = {k.arg: k.value for k in ds[0].keywords}
+        if None in kw or any(k in kw for k in ("nargs", "is_flag", "count", "default", "callback", "flag_value", "envvar",
+                                                "expose_value", "is_eager", "cls", "prompt")):
+            _bad(ds[0], f"{fn.name}: the option {pname} has nargs / is_flag / count / default / callback / ...")
+        mult = kw.get("multiple")
+        mult = bool(isinstance(mult, ast.Constant) and mult.value is True) if mult is not None else False
+        if "multiple" in kw and not isinstance(kw["multiple"], ast.Constant):
+            _bad(ds[0], f"{fn.name}: the option {pname}: multiple is not a literal")
+        t = kw.get("type")
+        if kind == "file_r":
+            ok = (not mult and isinstance(t, ast.Call) and FunTranslator.dotted(t.func) == "click.File"
+                  and not t.keywords and len(t.args) == 1 and isinstance(t.args[0], ast.Constant) and t.args[0].value == "r")
+        elif kind == "multi_str":
+            ok = mult and isinstance(t, ast.Name) and t.id == "str"
+        else:
+            ok = False
+        if not ok:
+            _bad(ds[0], f"{fn.name}: the option {pname} is not declared as {kind}")
 
 
 def desugar_listcomps(stmts, used):
@@ -1387,6 +1600,8 @@ def translate(spec, repo):
         extra.append(("$fadd", "fadd", "a + b with a float literal operand (binary64 addition is not modelled)"))
     if ctx.ext_str:
         extra.append(("$str", "ext_str", "str(v) / format(v) of a value that is neither a string nor an int, in an f-string"))
+    extra += [("$s." + d, "exts_" + cident(d), f"{d}(...): a call with an effect on the state {st}; the new state, on "
+               f"(old state, arguments)") for d, st in ctx.state_calls.items()]
     if len({v for _, v, _ in extra}) != len(extra):
         raise Untranslatable("two untranslated operations share a Section variable name")
     section = ctx.float_div or bool(externals) or bool(extra)
@@ -1413,6 +1628,7 @@ def translate(spec, repo):
         out.append("")
         prev_ft = "ft_base"
     late_str = False
+    late_sections = []
     for k, item in enumerate(spec["functions"]):
         rel, fname = item[0], item[1]
         objects = {}
@@ -1430,8 +1646,35 @@ def translate(spec, repo):
             out.append(f"Definition ft_str (fuel : nat) : ftable := ft_add {cstr('$str')} (ext_fn ext_str) ({prev_ft}).")
             out.append("")
             prev_ft = "ft_str fuel"
+        if len(item) > 2 and item[2].get("late_externals"):
+            # externals declared from here on only (the functions translated so far keep their text and arity)
+            out.append(f"Section GenLate{len(late_sections)}.")
+            late_sections.append(f"GenLate{len(late_sections)}")
+            names = []
+            for lrel, lname in item[2]["late_externals"]:
+                lnode = top(lrel, ast.FunctionDef, lname)
+                la = lnode.args
+                if la.vararg or la.kwarg or la.kwonlyargs or la.defaults or la.posonlyargs or lname in funs:
+                    _bad(lnode, f"external {lname}: unsupported signature / name already taken")
+                funs[lname] = FunInfo(lname, [x.arg for x in la.args], set())
+                out.append(f"(* {lname}({', '.join(funs[lname].params)}): not translated; any function of the argument values *)")
+                out.append(f"Variable ext_{lname} : list val -> res val.")
+                names.append(lname)
+            base = f"({prev_ft})"
+            for lname in reversed(names):
+                base = f"(ft_add {cstr(lname)} (ext_fn ext_{lname}) {base})"
+            out.append(f"Definition ft_late{len(late_sections) - 1} (fuel : nat) : ftable := {base}.")
+            out.append("")
+            prev_ft = f"ft_late{len(late_sections) - 1} fuel"
         ctx.counter_ok = imports_counter(tree(rel))
         ctx.set_ok = not module_binds(tree(rel), "set")
+        ctx.tuple_ok = not module_binds(tree(rel), "tuple")
+        ctx.plain_imports = {al.name for n in tree(rel).body if isinstance(n, ast.Import) for al in n.names
+                             if al.asname is None and "." not in al.name
+                             and sum(1 for m in tree(rel).body if isinstance(m, (ast.Import, ast.ImportFrom))
+                                     for bl in m.names if (bl.asname or bl.name.split(".")[0]) == al.name) == 1
+                             and not any(isinstance(m, (ast.FunctionDef, ast.AsyncFunctionDef, ast.ClassDef))
+                                         and m.name == al.name for m in tree(rel).body)}
         if len(item) > 2 and item[2].get("top"):
             sl = item[2]
             if sl.get("in_class"):
@@ -1440,15 +1683,15 @@ def translate(spec, repo):
                 if len(cands) != 1 or cands[0].decorator_list:
                     raise Untranslatable(f"{rel}: method {sl['in_class']}.{fname} not found exactly once (undecorated)")
                 node = cands[0]
-                if sl.get("self_attrs"):
+                if sl.get("self_attrs") or sl.get("self_stores"):
                     chain = [top(r, ast.ClassDef, c) for r, c in sl.get("class_chain", [])]
                     if not chain or chain[0] is not cnode:
                         raise Untranslatable(f"{fname}: class_chain must start with the class of the method")
-                    check_plain_attrs(chain, set(sl["self_attrs"]))
+                    check_plain_attrs(chain, set(sl.get("self_attrs", {})) | set(sl.get("self_stores", {})))
             else:
                 node = top(rel, ast.FunctionDef, fname)
-                if sl.get("self_attrs"):
-                    raise Untranslatable(f"{fname}: self_attrs on a function that is not a method")
+                if sl.get("self_attrs") or sl.get("self_stores"):
+                    raise Untranslatable(f"{fname}: self_attrs / self_stores on a function that is not a method")
             node, writes = slice_top(node, sl)
             fname = node.name
             text_mode = sl.get("text")
@@ -1496,6 +1739,9 @@ def translate(spec, repo):
         out.append(f"Definition ft_{k} (fuel : nat) : ftable := ft_add {cstr(fname)} (fn_{fname} fuel) ({prev_ft}).")
         out.append("")
         prev_ft = f"ft_{k} fuel"
+    for nm in reversed(late_sections):
+        out.append(f"End {nm}.")
+        out.append("")
     if late_str:
         out.append("End GenStr.")
         out.append("")
